@@ -44,6 +44,10 @@ func seqAlphabet(levels int) []sop {
 		for _, k := range []string{"k1", "k2"} {
 			for _, v := range []int{1, 2, 0} {
 				a = append(a, sop{l, "set", k, v}, sop{l, "lockset", k, v})
+				if v != 0 {
+					// a locked section opened on the locker itself (a locker is a data scope too)
+					a = append(a, sop{l, "nestlockset", k, v})
+				}
 			}
 		}
 	}
@@ -77,6 +81,13 @@ func runSeq(levels int, hist []sop) (detail string) {
 				lk.Value(o.Key)
 				lk.SetValue(o.Key, val(o.Val))
 				lk.Commit()
+			case "nestlockset":
+				lk := chain[o.Level].LockData()
+				in := lk.LockData()
+				in.Value(o.Key)
+				in.SetValue(o.Key, val(o.Val))
+				in.Commit()
+				lk.Commit()
 			}
 			model[o.Level][o.Key] = val(o.Val)
 		}
@@ -99,6 +110,16 @@ func runSeq(levels int, hist []sop) (detail string) {
 				lk.Commit()
 				if got != want {
 					detail = fmt.Sprintf("after %v: level %d locked Value(%s) = %v, overlay model says %v", hist, l, k, got, want)
+					return
+				}
+				// ... and through a section opened on that section's locker
+				lk = chain[l].LockData()
+				in := lk.LockData()
+				got = in.Value(k)
+				in.Commit()
+				lk.Commit()
+				if got != want {
+					detail = fmt.Sprintf("after %v: level %d Value(%s) in a locked section nested in a locked section = %v, overlay model says %v", hist, l, k, got, want)
 					return
 				}
 			}
